@@ -1,4 +1,4 @@
-"""Per-property configuration of bin/check."""
+"""Per-property configuration of bin/check.  Fragments lib/props_*.py each define PROPS (a dict) and are merged in."""
 
 
 def sig_c17(f):
@@ -24,3 +24,16 @@ PROPS = {
         trusted=["modelled, not verified: mvdan/sh, bytes.Buffer, the io.Writer the user passes as Stdout"],
     ),
 }
+
+
+def _load_fragments():
+    import glob, importlib.util, os
+    here = os.path.dirname(os.path.abspath(__file__))
+    for f in sorted(glob.glob(os.path.join(here, "props_*.py"))):
+        spec = importlib.util.spec_from_file_location(os.path.basename(f)[:-3], f)
+        m = importlib.util.module_from_spec(spec)
+        spec.loader.exec_module(m)
+        PROPS.update(getattr(m, "PROPS", {}))
+
+
+_load_fragments()
